@@ -1,10 +1,12 @@
 #!/bin/sh
 # Applies every stored seed (breaking change) in turn and requires the property's check to report it.
+# Fast form: no evidence is written and the unchanged tree is not re-checked after each seed
+# (use seedtest.sh for a single seed with evidence).
 cd /verif; . ./env.sh
-miss=0
-for d in seeded/C*/; do id=$(basename $d | cut -c1-3)
-  out=$(./seedtest.sh $id /verif/$d/patch.diff 2>&1); rc=$(echo "$out" | grep -o "exit=[0-9]*" | head -1)
+miss=0; n=0
+for d in seeded/C*/; do id=$(basename $d | cut -c1-3); n=$((n+1))
+  out=$(./seedquick.sh $id /verif/$d/patch.diff 2>&1); rc=$(echo "$out" | grep -o "exit=[0-9]*" | head -1)
   echo "$(basename $d) $rc $(echo "$out" | grep -m1 -E "VIOLATED|UNDECIDED" | cut -c1-160)"
   [ "$rc" = "exit=1" ] || miss=$((miss+1))
 done
-echo "allseeds: $miss not reported"
+echo "allseeds: $n seeds, $miss not reported"
